@@ -1067,3 +1067,61 @@ def rule_unique_sorted(F, rep, rid, pred, where_txt):
         for c in unsorted_uniques(g):
             rep.fail(rid, '%s|%s' % (g.short.split('::')[-1], render(c)[:50]), g.where(c), '%s removes duplicates with `%s` from a range that is not sorted' % (g.short, render(c)[:60]))
     rep.ok(rid, 'scan', None, 'no std::unique over an unsorted range in %d functions of %s (fixture: 1 of 2 functions flagged, as expected)' % (n, where_txt))
+
+
+def take_while_loops(f):
+    """for loops whose condition conjoins the range bound with a property of the CURRENT element (it->x(), v[i].x): the loop stops at the
+    first element that lacks the property instead of skipping it."""
+    out = []
+    for L in f.walk():
+        if L.get('k') != 'For' or f.enclosing_lambda(L) is not None:
+            continue
+        cnd, init = role(L, 'cond'), role(L, 'init')
+        if cnd is None or init is None:
+            continue
+        iv = [x for x in walk(init) if x.get('k') == 'Var']
+        if not iv:
+            continue
+        d = iv[0]['d']
+
+        def conj(e):
+            while e.get('k') in ('Paren',) and len(e.get('c', [])) == 1:
+                e = e['c'][0]
+            if e.get('k') == 'Bin' and e.get('op') == '&&':
+                return conj(e['c'][0]) + conj(e['c'][1])
+            return [e]
+        cs = conj(cnd)
+        if len(cs) < 2:
+            continue
+        for c in cs:
+            def on_var(y):
+                # the loop variable is what is dereferenced / used as the index
+                if y.get('k') != 'Call' or not y.get('c'):
+                    return False
+                if y.get('opc') in ('->', '*') or (y.get('mc') and y.get('fn') in ('lock', 'expired')):
+                    r_ = y['c'][0]
+                    while r_.get('k') in ('Cast', 'Paren') and len(r_.get('c', [])) == 1:
+                        r_ = r_['c'][0]
+                    return r_.get('k') == 'Ref' and r_.get('d') == d
+                if y.get('opc') == '[]' or (y.get('mc') and y.get('fn') == 'at'):
+                    return any(x.get('k') == 'Ref' and x.get('d') == d for a in y['c'][1:] for x in walk(a))
+                return False
+            if any(on_var(y) for y in walk(c)):
+                out.append((L, c))
+    return out
+
+
+def rule_take_while(F, rep, rid, pred, where_txt):
+    from facts import AnalysisBroken, fixture_funcs
+    rep.rule(rid, 'in %s no for loop conjoins its range bound with a property of the current element (`it != end && !it->expired()`): such a loop STOPS at the first element that lacks the property, where the elements after it were meant to be handled too' % where_txt)
+    fx = fixture_funcs('takewhile')
+    if len(take_while_loops(fx['fixtureTakeWhileBad'])) != 1 or take_while_loops(fx['fixtureTakeWhileGood']):
+        raise AnalysisBroken('%s: the detector does not separate the two fixture functions (sa/fixtures/src/takewhile.cpp)' % rid)
+    n = 0
+    for g in F.funcs.values():
+        if not pred(g):
+            continue
+        n += 1
+        for L, c in take_while_loops(g):
+            rep.fail(rid, '%s|%s' % (g.short.split('::')[-1], render(c)[:40]), g.where(L), '%s: the loop condition `%s` ends the loop at the first element for which `%s` fails' % (g.short, render(role(L, 'cond'))[:70], render(c)[:40]))
+    rep.ok(rid, 'scan', None, 'no take-while loop in %d functions of %s (fixture: 1 of 2 functions flagged, as expected)' % (n, where_txt))
